@@ -310,7 +310,8 @@ func genSessionRobust(r *rand.Rand, t *Tree, id int) *SessionScn {
 			if names := cmdNames(t); len(names) > 0 && chance(r, 0.3) {
 				// near misses of section names: a command name with one more character, with a bare dot, with an unknown tail, in other case
 				n := pick(r, names)
-				line = "[" + pick(r, []string{n + "x", n + "-", n + "1", n + ".", n + ".nosuch", strings.ToUpper(n), n + " ", "x" + n, n + ".." + n}) + "]"
+				line = "[" + pick(r, []string{n + "x", n + "-", n + "1", n + ".", n + ".nosuch", strings.ToUpper(n), n + " ", "x" + n, n + ".." + n,
+					n + ".the " + lastPart(n) + " command", n + "." + lastPart(n)}) + "]" // (the command's own description / name as a group name below it)
 			}
 			text = insertLine(text, line, r.Intn(nl+1), "\n")
 			sc.Tags = append(sc.Tags, "fault")
@@ -419,7 +420,7 @@ func genSessionSources(r *rand.Rand, t *Tree, id int) *SessionScn {
 
 // ---- C12 round trips: declarations with rich preset values
 
-var rtStrings = []string{"", "a", "hello world", " lead", "trail ", "  both  ", `"`, `"quoted"`, `say "hi"`, `back\slash`, "tab\there", "new\nline", "cr\rlf",
+var rtStrings = []string{"100%", "%s and %d", "50% off%", "", "a", "hello world", " lead", "trail ", "  both  ", `"`, `"quoted"`, `say "hi"`, `back\slash`, "tab\there", "new\nline", "cr\rlf",
 	"é", "naïve café", "世界", "\u00a0nbsp", "\u2028ls", "a=b", "a:b", "k:v:w", ";semi", "#hash", "make clean ; make all", "a #b", "x ;", "; y", "[sec]", "=", ":", "\xff", "a\xffb", "\x00", "emoji😀",
 	"'single'", "`back`", "a  b", "trailing\\", `"\n"`, "\t", " ", "x" + strings.Repeat("y", 300), strings.Repeat("long ", 1200)}
 
@@ -726,4 +727,11 @@ func cmdNames(t *Tree) []string {
 	}
 	walk(t.Root, "")
 	return out
+}
+
+func lastPart(path string) string {
+	if i := strings.LastIndex(path, "."); i >= 0 {
+		return path[i+1:]
+	}
+	return path
 }
